@@ -73,14 +73,22 @@ func main() {
 	}
 	wg.Wait()
 	var all []*Scen
+	var failures []string
 	for i, r := range res {
 		if r.err != nil {
-			fmt.Fprintf(os.Stderr, "scenario %s failed: %v\n", builders[i].name, r.err)
-			os.Exit(3)
+			// build what can be built: the other views are still judged; the runner refuses to
+			// report "held" when something is missing
+			fmt.Fprintf(os.Stderr, "gossip: scenario %s NOT BUILT: %v\n", builders[i].name, r.err)
+			failures = append(failures, fmt.Sprintf("%s: %v", builders[i].name, r.err))
+			continue
 		}
 		all = append(all, r.scens...)
 	}
 	fmt.Fprintf(os.Stderr, "gossip: %d views built in %.1fs\n", len(all), time.Since(t0).Seconds())
+	if len(all) == 0 {
+		fmt.Fprintln(os.Stderr, "gossip: no view could be built")
+		os.Exit(3)
+	}
 
 	// generate histories (message construction signs with BLS: parallel per scenario)
 	type job struct {
@@ -88,23 +96,29 @@ func main() {
 		h *History
 	}
 	perScen := make([][]*History, len(all))
+	perFail := make([][]string, len(all))
 	for i, s := range all {
 		wg.Add(1)
 		go func(i int, s *Scen) {
 			defer wg.Done()
 			defer func() {
 				if r := recover(); r != nil {
-					fmt.Fprintf(os.Stderr, "catalogue of %s: panic: %v\n", s.Name, r)
-					os.Exit(3)
+					perFail[i] = append(perFail[i], fmt.Sprintf("%s: %v", s.Name, r))
 				}
 			}()
 			rng := rand.New(rand.NewSource(*seed*104729 + int64(i)))
-			perScen[i] = s.histories(*tier, rng, wantTopic)
+			perScen[i], perFail[i] = s.histories(*tier, rng, wantTopic)
 		}(i, s)
 	}
 	wg.Wait()
 	var jobs []job
+	var views []string
 	for i, hs := range perScen {
+		views = append(views, all[i].Name)
+		for _, f := range perFail[i] {
+			fmt.Fprintf(os.Stderr, "gossip: catalogue NOT BUILT: %s\n", f)
+			failures = append(failures, f)
+		}
 		for _, h := range hs {
 			h.Scen = all[i].Name
 			if *only != "" && *only != h.Scen+"|"+h.Name {
@@ -114,6 +128,13 @@ func main() {
 		}
 	}
 	fmt.Fprintf(os.Stderr, "gossip: %d histories generated in %.1fs\n", len(jobs), time.Since(t0).Seconds())
+	if *out != "" {
+		meta, _ := json.Marshal(map[string]interface{}{"views": views, "failed": failures})
+		if err := os.WriteFile(*out+".meta.json", meta, 0o644); err != nil {
+			fmt.Fprintln(os.Stderr, err)
+			os.Exit(3)
+		}
+	}
 
 	// execute on zrnt
 	results := make([][]Event, len(jobs))
